@@ -89,6 +89,11 @@ def check_stage(ctx, st: Stage, n, rng, splits):
     ctx.count(f"stage_{st.name}")
 
 
+def site_cloud(lat, long):
+    """a cloud top (km) that depends on the ground site"""
+    return float(0.5 + 4.0 * (float(lat) + 1.0) + 0.3 * float(long))
+
+
 class FakeUniform:
     """np.random.uniform replaced by per-call prepared arrays (so that random numbers travel with their event)."""
 
@@ -177,6 +182,8 @@ def build_stages(ctx):
     def tau_make(n):
         b = rng.uniform(0.0, 0.9, n)
         b[: min(n, 3)] = [0.0005, 0.5, 0.85][: min(n, 3)]        # below, inside, above the table
+        if n >= 7:                                                 # exactly on / next to the ends of the tabulated angle range
+            b[3:7] = [float(gB[-1]), float(gB[0]), float(np.nextafter(gB[-1], 0.0)), float(np.nextafter(gB[0], 1.0))]
         return {"b": b, "le": rng.uniform(6.0, 12.0, n), "u": rng.uniform(0.001, 0.99, n)}
     stages.append(Stage("Taus.tau_energy", tau_make, lambda inp: (tau.tau_energy(inp["b"], inp["le"], inp["u"]),)))
     stages.append(Stage("Taus.tau_exit_prob", tau_make, lambda inp: (tau.tau_exit_prob(inp["b"], inp["le"]),)))
@@ -192,8 +199,13 @@ def build_stages(ctx):
     def e_make(n):
         alt = rng.uniform(0.1, 19.0, n)
         alt[: min(n, 2)] = [25.0, -1.0][: min(n, 2)]            # out-of-range events exercise the mask
+        if n >= 6:
+            alt[2:4] = [0.0, 20.0]                                # the closed ends of the window
         return {"beta": rng.uniform(0.02, 0.7, n), "alt": alt, "E": 10 ** rng.uniform(-2, 2, n), "lat": rng.uniform(-1, 1, n), "lon": rng.uniform(0, 6, n)}
     stages.append(Stage("EAS.__call__", e_make, lambda inp: eas(inp["beta"], inp["alt"], inp["E"], inp["lat"], inp["lon"], cloudf=None), max_n=14, expensive=True))
+    # the same stage under a location-dependent cloud model: every event is evaluated at ITS ground site
+    stages.append(Stage("EAS.__call__[site-dependent cloud]", e_make,
+                        lambda inp: eas(inp["beta"], inp["alt"], inp["E"], inp["lat"], inp["lon"], cloudf=site_cloud), max_n=14, expensive=True))
     # ---- radio signal, np.random.uniform replaced by per-event numbers
     radio = EASRadio(cfg)
 
